@@ -13,7 +13,7 @@ REACTIONS = {
     'r_gen': (['A'], ['C'], 'general', {'rate': 'kf*A/(1+B)'}),
     'r_delay': (['B'], [], 'massaction', {'k': 0.6}, 'fixed', [], ['C'], {'delay': 0.3}),
 }
-OPS = ['species', 'r_ma', 'r_hill', 'r_gen', 'r_delay', 'param', 'rule', 'setp', 'sets', 'init', 'iface', 'iface_safe',
+OPS = ['species', 'r_ma', 'r_hill', 'r_gen', 'r_delay', 'param', 'rule', 'rule_dt', 'setp', 'sets', 'init', 'iface', 'iface_safe',
        'sim_det', 'sim_ssa', 'sim_safe', 'sim_vol', 'sim_delay', 'sim_iface', 'seed']
 
 
@@ -30,7 +30,7 @@ class Shadow:
     def fresh(self):
         from bioscrape.types import Model
         return Model(species=list(self.species), reactions=[tuple(r) for r in self.reactions], parameters=list(self.params),
-                     rules=[(t, dict(a)) for t, a in self.rules], initial_condition_dict=dict(self.values))
+                     rules=[((r[0], dict(r[1])) if len(r) == 2 else (r[0], dict(r[1]), r[2])) for r in self.rules], initial_condition_dict=dict(self.values))
 
 
 def base_model():
@@ -66,6 +66,14 @@ def apply(m, sh, op, ctx_state, c, case):
             sh.species.append('X'); sh.values['X'] = 0.0
         m.create_rule('assignment', {'equation': 'X = A + 2*B'})
         sh.rules.append(('assignment', {'equation': 'X = A + 2*B'}))
+        edited = True
+    elif op == 'rule_dt':
+        # a counter: not idempotent, so a rule that is registered or applied twice shows
+        if 'Y' not in sh.species:
+            m._add_species('Y'); m.set_species({'Y': 0.0})
+            sh.species.append('Y'); sh.values['Y'] = 0.0
+        m.create_rule('assignment', {'equation': 'Y = Y + 1'}, rule_frequency='dt')
+        sh.rules.append(('assignment', {'equation': 'Y = Y + 1'}, 'dt'))
         edited = True
     elif op == 'setp':
         v = 1.5 + 0.5 * (1 + sum(1 for _ in ctx_state['setp']))
@@ -165,7 +173,7 @@ def check(c, hist):
     if d:
         what = d.split('/')[1].split('[')[0].split(':')[0]
         c.violation('C08/history-dependent/%s' % what, 'after %s the model differs from the same definition built at once: %s' % (list(hist), d), case)
-    if any(op in REACTIONS or op in ('rule', 'species', 'setp', 'sets') for op in hist):
+    if any(op in REACTIONS or op in ('rule', 'rule_dt', 'species', 'setp', 'sets') for op in hist):
         c.nontrivial(' '.join(hist))
     if len(c.samples) < 1 and len(hist) >= 3:
         c.sample(dict(history=list(hist), species=o1['species'], ssa_seed11_last_row=o1['ssa/seed11'][-1]))
@@ -177,12 +185,12 @@ def run(ctx):
     for n in range(1, L + 1):
         hists += list(itertools.product(OPS, repeat=n))
     if not ctx.quick:
-        small = ['r_hill', 'r_delay', 'rule', 'setp', 'init', 'iface', 'sim_ssa', 'sim_det', 'sim_iface']
+        small = ['r_hill', 'r_delay', 'rule', 'rule_dt', 'setp', 'init', 'iface', 'sim_ssa', 'sim_det', 'sim_iface']
         hists += list(itertools.product(small, repeat=5))
     pmap(check, hists, ctx, nshards=512)
     ctx.bounds = dict(history_length=L, alphabet=OPS, histories=len(hists))
     ctx.rule = ('E3: every operation sequence up to the length bound over {add species; add a mass-action / proportional-Hill (named parameters) / '
-                'general / delayed reaction; add a parameter; add a species-assigning repeated rule; set a parameter; set a species value; '
+                'general / delayed reaction; add a parameter; add a species-assigning repeated rule; add a dt counter rule (not idempotent); set a parameter; set a species value; '
                 'py_initialize; build and keep a plain / safe interface; simulate through py_simulate_model in deterministic, SSA, safe, volume '
                 'and delay mode; simulate through the kept interface while it is current; seed} is applied to a real Model while a shadow '
                 'definition is maintained. After every history: seeded SSA / safe / volume / delay trajectories (2 seeds + a scripted stream), '
